@@ -258,11 +258,11 @@ def gen_calls(r, spec, ctx_n):
     return plans
 
 
-def model_op(spec, plan):
+def model_op(spec, plan, jitter=1):
     ck = plan["call_kwargs"]
     op = {"op": "c09.call", "config": spec["config"], "service": plan["svc_full"], "method": plan["method"],
           "replies": plan["replies"] + ["OK"],       # the loopback server answers OK once its script is used up
-          "jitter": [], "jitter_tail": 1, "retry": "default", "timeout": "default"}
+          "jitter": [], "jitter_tail": jitter, "retry": "default", "timeout": "default"}
     if ck.get("retry") == "none":
         op["retry"] = None
     elif isinstance(ck.get("retry"), dict):
@@ -276,14 +276,14 @@ def model_op(spec, plan):
     return op
 
 
-def near_threshold(mo, retry_deadline):
+def near_threshold(mo, retry_deadline, j=1):
     """would float rounding / loopback latency decide whether the overall deadline strikes? (generator-side tie
     avoidance in exact arithmetic: such experiments are not run)"""
     if retry_deadline is None:
         return False
     starts = [frac(a["start"]) for a in mo["attempts"]]
     bounds = [frac(b) for b in mo["bounds"]]
-    return any(abs(st + bounds[i] - retry_deadline) < slack(i) for i, st in enumerate(starts) if i < len(bounds))
+    return any(abs(st + Fraction(j) * bounds[i] - retry_deadline) < slack(i) for i, st in enumerate(starts) if i < len(bounds))
 
 
 def run_api(ctx, r, spec, label, plans=None):
@@ -353,15 +353,18 @@ def run_api(ctx, r, spec, label, plans=None):
                 meta.append(("table", s, kind, None))
         codec = rpc.Codec(files)
         plans = plans if plans is not None else gen_calls(r, spec, ctx.n(2, 3))
-        mres = ctx.driver.ask([model_op(spec, p) for p in plans])
+        modes = (1.0, None) if ctx.quick else (1.0, None, 0.5)       # jitter pinned to 1 / random / pinned to 1/2
+        mres_by = {1.0: ctx.driver.ask([model_op(spec, p) for p in plans])}
+        mres_by[None] = mres_by[1.0]            # random jitter: the pinned-to-1 run gives the upper bounds
+        if 0.5 in modes:
+            mres_by[0.5] = ctx.driver.ask([model_op(spec, p, 0.5) for p in plans])
         for s in spec["services"]:
             svc = api.services[f"{pkg}.{s['name']}"]
             loc = rpc.py_locations(api, svc)
-            mine = [(p, mo) for p, mo in zip(plans, mres) if p["service"] == s["name"]]
             for asy in (False, True):
-                for jitter in (1.0, None):
+                for jitter in modes:
                     calls, kept = [], []
-                    for p, mo in mine:
+                    for p, mo in [(p, mo) for p, mo in zip(plans, mres_by[jitter]) if p["service"] == s["name"]]:
                         if "attempts" not in mo:
                             continue
                         m = svc.methods[p["method"]]
@@ -377,7 +380,7 @@ def run_api(ctx, r, spec, label, plans=None):
                         elif ck.get("retry") != "none":
                             st = statement_defaults(spec["config"], p["svc_full"], p["method"])
                             dl = st["retry"]["deadline"] if st["retry"] else None
-                        if near_threshold(mo, dl):
+                        if near_threshold(mo, dl, jitter or 1):
                             ctx.count("skipped", "near-deadline-threshold")
                             continue
                         if jitter is None and mo["result"] == "retry_error":
@@ -497,6 +500,34 @@ def check_calls(ctx, spec, s, asy, jitter, kept, sess):
         n = len(srv)
         sleeps = res.get("sleeps", [])
         raised = res.get("raised")
+        wall = res.get("wall_s", 0.0)
+        # thresholds of the loop (exact, from the model): if the real time this call took is not clearly smaller than the
+        # distance to the nearest one, latency — not the code under test — decides the outcome: inconclusive, not compared
+        gaps = []
+        m_dl = None
+        if isinstance(ck.get("retry"), dict):
+            m_dl = None if ck["retry"]["deadline"] is None else num_fraction(ck["retry"]["deadline"])
+        elif ck.get("retry") != "none":
+            st0 = statement_defaults(spec["config"], p["svc_full"], p["method"])
+            m_dl = st0["retry"]["deadline"] if st0["retry"] else None
+        m_bounds = [frac(b) for b in mo["bounds"]]
+        for i, a in enumerate(mo["attempts"]):
+            if m_dl is not None and i < len(m_bounds):
+                gaps.append(abs(frac(a["start"]) + Fraction(jitter or 1) * m_bounds[i] - m_dl))
+            if a["timeout"] is not None and jitter is not None and frac(a["start"]) > Fraction(1, 20):
+                # `remaining < 1 → the whole timeout again`: a jump of size `start` in the deadline the attempt carries
+                T0 = frac(mo["attempts"][0]["timeout"])
+                gaps.append(abs(T0 - frac(a["start"]) - 1))
+        if gaps and wall + 0.02 >= float(min(gaps)):
+            ctx.count("skipped", "inconclusive: the real time the call took reaches the nearest threshold of the loop")
+            continue
+        lag = Fraction(1, 20) + Fraction(wall)
+        if asy and p["kind"] == "sstream" and n == 1 and p["replies"][0] != "OK" and raised == api_core_class(p["replies"][0]).__name__ and len(mo["attempts"]) > 1:
+            # api-core's asyncio stream wrapper only retries what `wait_for_connection()` raises; on the loopback the status
+            # of an immediately failing stream occasionally arrives after it — the error then surfaces on iteration
+            ctx.count("skipped", "asyncio server-streaming: error delivered after wait_for_connection (api-core/grpc.aio race)")
+            ctx.assume("asyncio server-streaming methods: api-core retries only errors raised by wait_for_connection(); an error delivered later surfaces without retry (observed rarely on the loopback; not generator code)")
+            continue
         trs = [None if (x["time_remaining"] is None or x["time_remaining"] > 1e8) else x["time_remaining"] for x in srv]   # grpc reports "no deadline" as ~2^63
         cts = [t for pth, t in res.get("timeouts", []) if pth.endswith("/" + p["method"])]     # timeout= of each stub invocation (client side)
         tag = f"{p['service']}.{p['method']} ({'async' if asy else 'sync'}, jitter={jitter}) replies={p['replies'][:5]}{'…' if len(p['replies']) > 5 else ''} kwargs={ck}"
@@ -530,7 +561,7 @@ def check_calls(ctx, spec, s, asy, jitter, kept, sess):
                 # the overall deadline: stopping early is right iff the next back-off would cross it
                 spent = sum(Fraction(x) for x in sleeps)
                 nxt = closed_bound(rp, n - 1)
-                if jitter == 1.0 and not (spent <= rp["deadline"] + slack(n) and spent + nxt >= rp["deadline"] - slack(n)):
+                if jitter is not None and not (spent <= rp["deadline"] + lag and spent + nxt * Fraction(jitter) >= rp["deadline"] - lag):
                     ctx.fail(key_prefix + "retry-deadline", f"{tag}: gave up after {n} attempts with {float(spent)} s slept, next back-off ≤ {float(nxt)}, deadline {rp['deadline']}", payload)
             else:
                 ctx.fail(key_prefix + ("single-attempt" if k == 1 else "attempt-count"), f"{tag}: {n} attempts, the statement says {k} (raised={raised})", payload)
@@ -545,7 +576,7 @@ def check_calls(ctx, spec, s, asy, jitter, kept, sess):
                 b = closed_bound(rp, i)
                 if Fraction(w) > b * (1 + Fraction(1, 10 ** 9)) or w < 0:
                     ctx.fail(key_prefix + "wait-bound", f"{tag}: wait {i} = {w} s exceeds min(initial*mult^{i}, maximum) = {float(b)}", payload)
-            if rp["deadline"] is not None and sum(Fraction(x) for x in sleeps) > rp["deadline"] + slack(n):
+            if rp["deadline"] is not None and sum(Fraction(x) for x in sleeps) > rp["deadline"] + lag:
                 ctx.fail(key_prefix + "retry-deadline", f"{tag}: slept {sum(sleeps)} s in total, overall deadline {rp['deadline']}", payload)
         if len(cts) != n:
             ctx.fail("session-failed", f"{tag}: {len(cts)} stub invocations recorded for {n} server calls", payload)
@@ -571,15 +602,12 @@ def check_calls(ctx, spec, s, asy, jitter, kept, sess):
             ctx.disagree("T3:c09.call.waits", f"{tag}: model {len(mw)} waits vs impl {len(sleeps)}", payload)
         else:
             for i, (a, b) in enumerate(zip(mw, sleeps)):
-                if (jitter == 1.0 and abs(float(a) - b) > 1e-9 * max(1.0, b)) or (jitter is None and Fraction(b) > a * (1 + Fraction(1, 10 ** 9))):
+                if (jitter is not None and abs(float(a) - b) > 1e-9 * max(1.0, b)) or (jitter is None and Fraction(b) > a * (1 + Fraction(1, 10 ** 9))):
                     ctx.disagree("T3:c09.call.waits", f"{tag}: wait {i}: model {'=' if jitter else '≤'} {float(a)} vs impl {b}", payload)
-        if jitter == 1.0:
+        if jitter is not None:
             for i, (a, ct) in enumerate(zip(mo["attempts"], cts)):
                 mt = frac(a["timeout"])
-                st_ = frac(a["start"])
-                if mt is not None and T is not None and abs(T - st_ - 1) < slack(i):
-                    continue        # api-core's `remaining < 1 → whole timeout` threshold: latency decides
-                if (mt is None) != (ct is None) or (mt is not None and abs(float(mt) - ct) > float(slack(i))):
+                if (mt is None) != (ct is None) or (mt is not None and abs(float(mt) - ct) > float(lag)):
                     ctx.disagree("T3:c09.call.deadline", f"{tag}: attempt {i}: model deadline {None if mt is None else float(mt)} vs impl {ct}", payload)
 
 
@@ -620,6 +648,35 @@ def all_codes_plans(spec):
     return plans
 
 
+def probe_excluded(ctx):
+    """excluded-point stream: points the hypotheses exclude, run on the real generator; informational (assumptions)"""
+    base = all_codes_spec()
+    probes = {
+        "methodConfig entry without `name`": {"methodConfig": [{"timeout": "5s"}]},
+        "timeout \"0s\"": {"methodConfig": [{"name": [{"service": "acme.lib.v1.Library", "method": "GetBook"}], "timeout": "0s"}]},
+        "status code given as a number (14)": {"methodConfig": [{"name": [{"service": "acme.lib.v1.Library", "method": "GetBook"}],
+                                                                  "retryPolicy": {"retryableStatusCodes": [14]}}]},
+        "lower-case status code name": {"methodConfig": [{"name": [{"service": "acme.lib.v1.Library", "method": "GetBook"}],
+                                                           "retryPolicy": {"retryableStatusCodes": ["unavailable"]}}]},
+    }
+    for what, cfg in probes.items():
+        fd, path = tempfile.mkstemp(prefix="gapicverif_c09_", suffix=".json", dir=genrun.SCRATCH)
+        with os.fdopen(fd, "w") as fh:
+            json.dump(cfg, fh)
+        try:
+            req = apigen.request(build_files(base), f"transport=grpc,autogen-snippets=false,retry-config={path}")
+            try:
+                api, _ = genrun.build_api(req)
+                m = api.services["acme.lib.v1.Library"].methods["GetBook"]
+                obs = f"accepted: retry={m.retry}, timeout={m.timeout!r}"
+            except BaseException as e:  # noqa
+                obs = f"generator raises {type(e).__name__}: {str(e)[:80]}"
+        finally:
+            os.unlink(path)
+        ctx.count("excluded_point", what)
+        ctx.assume(f"excluded point (outside the quantifier) — {what}: {obs}")
+
+
 def run(ctx):
     ctx.rule = ("service configs (1..4 entries; names: exact, service-wide, other service/package, unknown method, missing key; timeout "
                 "with/without retryPolicy; fractional and `n` durations; absent/zero back-off fields; 1..16 status codes) x every method of "
@@ -627,19 +684,20 @@ def run(ctx):
                 "deadline; explicit retry/timeout overrides) x {sync, asyncio} x {jitter pinned to 1, random jitter}; distinct by "
                 "(config, method) for defaults, by (config, method, transport) for table entries, by (config, method, replies, kwargs, "
                 "client kind, jitter mode) for calls; non-trivial = every one of them")
-    ctx.assume("every methodConfig entry has a `name` list (an entry without it makes `selector in None` raise TypeError in the generator)")
+    ctx.assume("every methodConfig entry has a `name` list")
     ctx.assume("durations are plain decimal seconds (or integer nanoseconds with the `n` suffix); timeout > 0")
     ctx.assume("maxAttempts is read and then ignored by the generator; the statement does not mention it")
     ctx.assume("a service-wide name (no `method`) names no method (DESIGN §7.9)")
     r = ctx.rng("c09")
     check_helpers(ctx, ctx.rng("helpers"))
+    probe_excluded(ctx)
     # corpus first
     for fn, blob in corpus_specs():
         run_api(ctx, ctx.rng("corpus", fn), blob["spec"], "corpus:" + fn, plans=blob.get("plans"))
     # exhaustive status-code table on the wire
     spec = all_codes_spec()
     run_api(ctx, r, spec, "all-codes", plans=all_codes_plans(spec))
-    for a in range(ctx.n(14, 200)):
+    for a in range(ctx.n(14, 150)):
         run_api(ctx, r, gen_spec(r, a, thorough=not ctx.quick), f"api{a}")
 
 
